@@ -79,8 +79,19 @@ def handle (args : List String) : String :=
     | .error .index => "panic=index"
     | .error .unwrapNone => "panic=unwrap"
     | .error .fuel => "panic=fuel"
-  | ["keyed", ls] => handleList true ((ls.splitOn ";").map parseItems)
-  | ["indexed", ls] => handleList false ((ls.splitOn ";").map parseItems)
+  | [op, evs] =>
+    if op == "keyeddyn" || op == "indexeddyn" then
+      -- item views that are a dynamic view at their top level: the region is a function of (list, toggle)
+      let shape := fun (l : List SycVerif.ListMap.Item) (t : Nat) =>
+        ",".intercalate (["Tpre", "M"] ++ (l.map fun it => if t % 2 == 0 then s!"M,li{it.key},M" else s!"M,b{it.key},i{it.key},M") ++ ["M", "Tpost"])
+      let r := (evs.splitOn ";").foldl (fun (acc : List SycVerif.ListMap.Item × Nat × List String) e =>
+        let (l, t, out) := acc
+        let (l, t) := if e.startsWith "l" then (parseItems (e.drop 1).toString, t) else (l, ((e.drop 1).toString.toNat?).getD t)
+        (l, t, out ++ [shape l t])) ([], 0, [])
+      " | ".intercalate r.2.2
+    else if op == "keyed" then handleList true ((evs.splitOn ";").map parseItems)
+    else if op == "indexed" then handleList false ((evs.splitOn ";").map parseItems)
+    else "bad-op"
   | _ => "bad-op"
 
 end SycVerif.Driver.DomDrv
